@@ -197,6 +197,24 @@ func isoShapes(scratch string, rng *rand.Rand, n int) []*isoShape {
 			Entry{Type: "license", Src: "src/sub/data.txt", Dst: "/usr/share/licenses/isopkg/LICENSE.arch", Tag: "archlinux"},
 			Entry{Type: "ghost", Dst: "/var/log/isopkg.log"})
 	}, "")
+	// the same relation several times in a list; an entry addressed to a name that is no packager's ("arch") next to an
+	// override block of archlinux; an entry addressed to one packager at the destination of a generic one (that packager's
+	// packaging is rejected - the others, before or after, are not touched by it)
+	mk("repeated-relations", func(c *Cfg, n *[]Node) {
+		c.Depends = []string{"a", "b >= 1", "a", "c", "b >= 1"}
+		c.Provides, c.Replaces, c.Conflicts = []string{"p", "p", "q"}, []string{"r2", "r1", "r2"}, []string{"x", "y", "x"}
+		c.Recommends, c.Suggests = []string{"m", "m"}, []string{"s", "t", "s"}
+	}, "")
+	mk("addressed-to-nobody", func(c *Cfg, n *[]Node) {
+		c.Entries = append(c.Entries, Entry{Type: "file", Src: "src/app.conf", Dst: "/etc/isopkg/arch-only.conf", Tag: "arch"},
+			Entry{Type: "file", Src: "src/extra.conf", Dst: "/etc/isopkg/pacman-only.conf", Tag: "pacman"},
+			Entry{Type: "file", Src: "src/extra.conf", Dst: "/etc/isopkg/real-arch.conf", Tag: "archlinux"})
+	}, "overrides:\n  archlinux:\n    depends:\n      - \"archdep\"\n  deb:\n    depends:\n      - \"debdep\"\n")
+	mk("specific-over-generic", func(c *Cfg, n *[]Node) {
+		c.Entries = append(c.Entries, Entry{Type: "file", Src: "src/app.conf", Dst: "/usr/share/doc/isopkg/README"},
+			Entry{Type: "file", Src: "src/extra.conf", Dst: "/usr/share/doc/isopkg/README", Tag: "deb"},
+			Entry{Type: "file", Src: "src/extra.conf", Dst: "/usr/share/doc/isopkg/NOTES"})
+	}, "")
 	mk("fileinfo-all-types", func(c *Cfg, n *[]Node) {
 		c.Entries = append(c.Entries,
 			Entry{Type: "dir", Dst: "/var/lib/isopkg", Fi: withFi, HasFi: true},
@@ -426,7 +444,7 @@ func permutations(xs []string) [][]string {
 func famIso(tr *Trace, scratch string, seed int64, tier string, workers int, behaviours string) M {
 	os.Unsetenv("SOURCE_DATE_EPOCH")
 	rng := rand.New(rand.NewSource(seed + 99))
-	nshapes := 25
+	nshapes := 28
 	maxLen := 2
 	if tier == "thorough" {
 		nshapes, maxLen = 40, 3
@@ -601,9 +619,9 @@ func famIso(tr *Trace, scratch string, seed int64, tier string, workers int, beh
 func famConc(tr *Trace, scratch string, seed int64, tier string) M {
 	os.Unsetenv("SOURCE_DATE_EPOCH")
 	rng := rand.New(rand.NewSource(seed + 7))
-	nshapes, iters := 24, 12
+	nshapes, iters := 27, 12
 	if tier == "thorough" {
-		nshapes, iters = 24, 40
+		nshapes, iters = 27, 40
 	}
 	isoWithSigned = true
 	shapes := isoShapes(scratch, rng, nshapes)
